@@ -1,11 +1,54 @@
 import Autog.Lemmas.WeakDuality
-/-! # C10
-    Network simplex optimality. Weak duality and the certificate checker's soundness. -/
+import Autog.Lemmas.Contiguous
+import Autog.Spec.Layering
+/-! # C10 — network-simplex layering minimises total edge length; bands are contiguous
+
+    PARTIAL. What is proved, for all graphs and layerings:
+    * weak duality and the soundness of the certificate checker (`C10_certificate_checker_sound`): a layering that `certOK` accepts
+      — feasible, with a non-negative flow that conserves the edge weights at every node and whose dual objective equals the
+      layering's total weighted length — is optimal among ALL feasible layerings;
+    * contiguity as a CONSEQUENCE of optimality (`C10_bands_contiguous`, `C10_certified_layering_contiguous`): in an optimal
+      layering of a connected graph with positive weights and unit minimum lengths every level strictly between two used levels
+      holds a node.
+    Not proved: that the simplex of the model always ends with such a certificate. That is the contract `K:ns-certificate`
+    (the cut values of the final spanning tree of the REAL code, read from the trace, are the flow), evaluated on every traced
+    component whose pivot loop did not stop on its budget; `K:ns-contiguity-hyp` evaluates the two structural hypotheses of the
+    contiguity theorem (`unitB`, `connB`) on the same state. -/
 
 namespace Autog
+open WeakDuality Contiguous
 
 theorem C10_weak_duality : type_of% @WeakDuality.weak_duality := @WeakDuality.weak_duality
 
 theorem C10_optimal_of_certificate : type_of% @WeakDuality.optimal_of_certificate := @WeakDuality.optimal_of_certificate
+
+/-- the checker the driver runs on the traced cut values is sound -/
+theorem C10_certificate_checker_sound : type_of% @certOK_sound := @certOK_sound
+
+/-- no edge of an optimal layering runs across an empty level -/
+theorem C10_no_edge_across_empty_level : type_of% @no_edge_across_empty_level := @no_edge_across_empty_level
+
+/-- bands are contiguous in every optimal layering of a connected graph with positive weights and unit minimum lengths -/
+theorem C10_bands_contiguous : type_of% @bands_contiguous := @bands_contiguous
+
+/-- the two halves of C10 from what the driver evaluates: a layering whose certificate the checker accepts, on a connected
+    graph (`connB`) with positive weights and unit minimum lengths (`unitB`), is optimal AND has no empty band between two used ones -/
+theorem C10_certified_layering_contiguous (es : List E) (y : Nat → Int) (n : Nat)
+    (hc : certOK es y n = true) (hu : unitB es = true) (hconn : connB es n = true) :
+    (∀ y' : Nat → Int, (∀ e ∈ es, e.d ≤ y' e.dst - y' e.src) → cost y es ≤ cost y' es) ∧
+    ∀ a b, a < n → b < n → ∀ k : Int, y a < k → k < y b → ∃ e ∈ es, y e.src = k ∨ y e.dst = k := by
+  obtain ⟨hfeas, hopt⟩ := certOK_sound es y n hc
+  obtain ⟨hw, hd⟩ := unitB_sound es hu
+  refine ⟨hopt, fun a b ha hb k h1 h2 => ?_⟩
+  exact bands_contiguous es y hfeas hopt hw hd a b (connB_sound es n hconn a b ha hb) k h1 h2
+
+/-- non-vacuity: a diamond with a long edge (0→1→3, 0→2→3, 0→3), layered 0,1,1,2, with the flow of its tight spanning tree -/
+def exDiamond : List E :=
+  [{ src := 0, dst := 1, w := 1, d := 1, x := 3 }, { src := 1, dst := 3, w := 1, d := 1, x := 3 },
+   { src := 0, dst := 2, w := 1, d := 1, x := 0 }, { src := 2, dst := 3, w := 1, d := 1, x := 0 },
+   { src := 0, dst := 3, w := 1, d := 1, x := 0 }]
+def exY : Nat → Int := fun v => [0, 1, 1, 2].getD v 0
+
+example : certOK exDiamond exY 4 = true ∧ unitB exDiamond = true ∧ connB exDiamond 4 = true := by decide
 
 end Autog
